@@ -9,6 +9,7 @@ from __future__ import annotations
 
 import asyncio
 import copy
+import itertools
 
 import edzed
 
@@ -42,9 +43,10 @@ FILTERS = ['none', 'pass', 'edit', 'reject', 'mut', 'empty', 'strip']
 
 def configs(tier):
     out = []
+    fan = 4 if tier == 'quick' else 6       # fan-out 0..3 (thorough 0..5) per event list
     for sender in ('sb', 'input', 'counter', 'valuepoll'):
-        for k in range(4):
-            for m in range(4):
+        for k in range(fan):
+            for m in range(fan):
                 for style in ('tuple', 'list', 'single'):
                     if style == 'single' and (k > 1 or m > 1 or k + m == 0):
                         continue
@@ -57,7 +59,7 @@ def configs(tier):
                             out.append(dict(sender=sender, k=k, m=m, style=style, pat=pat,
                                             shared=shared))
     for sender in ('func', 'not'):
-        for k in range(4):
+        for k in range(fan):
             for style in ('tuple', 'list', 'single'):
                 if style == 'single' and k != 1:
                     continue
@@ -70,13 +72,15 @@ def configs(tier):
                         out.append(dict(sender=sender, k=k, m=0, style=style, pat=pat,
                                         shared=shared))
     # the same Event object listed more than once in one list: sent once per occurrence
-    for c in [c for c in out if c['style'] != 'single' and c['k'] + c['m'] >= 1 and c['pat'] in (-1, 2)
-              and not c['shared']]:
+    for c in [c for c in out if c['style'] != 'single' and c['k'] + c['m'] >= 1
+              and (c['pat'] in (-1, 2) or tier != 'quick') and not c['shared']]:
         out.append(dict(c, dup=1))
     # one Event object configured on two sender blocks: 'source' and 'previous' are the sender's
     for pair in (('sb', 'sb'), ('input', 'counter'), ('input', 'not')):
-        for k, m in ((1, 0), (0, 1), (1, 1), (2, 1)):
-            for pat in (-1, 1, 2):
+        for k, m in ((1, 0), (0, 1), (1, 1), (2, 1)) if tier == 'quick' else itertools.product(range(4), repeat=2):
+            if k + m == 0:
+                continue
+            for pat in ((-1, 1, 2) if tier == 'quick' else range(-1, len(FILTERS))):
                 out.append(dict(kind='shared-event', pair=pair, k=k, m=m, pat=pat, sender=pair[0],
                                 style='list', shared=1))
     return out
